@@ -321,11 +321,14 @@ def _fn(body):
 
 
 PROGRAM_KINDS = ('lines', 'globals', 'strings', 'noeol', 'rterr', 'arrays', 'big', 'silent', 'mixed')
+RETURNS = ('0', '0', '3', '255', '256', '(- 0 1)', '7', '1')     # main's int result = the exit status of standalone nano_vm
 
 
-def gen_program(rng, tag, kind=None, scale=1):
-    """A nano program whose output is long and distinctive for `tag`.  Returns (kind, source)."""
+def gen_program(rng, tag, kind=None, scale=1, ret=None):
+    """A nano program whose output is long and distinctive for `tag`.  Returns (kind, source).
+    main returns `ret` (default: drawn from RETURNS); kind 'ffi' makes extern calls (labs / toupper / strlen through the FFI)."""
     kind = kind or rng.choice(PROGRAM_KINDS)
+    ret = ret if ret is not None else rng.choice(RETURNS)
     n = rng.randrange(20, 60) * scale
     k = rng.randrange(3, 9)
     work = rng.randrange(12, 19)
@@ -354,7 +357,7 @@ fn main() -> int {
         (println (+ "%(tag)s-line-" (+ (int_to_string i) (+ ":" (int_to_string (fib (+ %(work)d (%% i 4))))))))
         set i (+ i 1)
     }
-    return 0
+    return %(ret)s
 }
 shadow main { assert true }
 '''
@@ -383,7 +386,7 @@ fn main() -> int {
     }
     set g_name (+ g_name "-end")
     (println g_name)
-    return 0
+    return %(ret)s
 }
 shadow main { assert true }
 '''
@@ -400,7 +403,7 @@ fn main() -> int {
     (println (rep "%(tag)s=" 700))
     (println (rep "%(tag)s#" 1500))
     (println (+ "%(tag)s" "-done"))
-    return 0
+    return %(ret)s
 }
 shadow main { assert true }
 '''
@@ -415,7 +418,7 @@ fn main() -> int {
         set i (+ i 1)
     }
     (print "%(tag)s-unterminated")
-    return 0
+    return %(ret)s
 }
 shadow main { assert true }
 '''
@@ -435,7 +438,7 @@ fn main() -> int {
     (print "%(tag)s-partial-")
     (println (down 1000000))
     (println "%(tag)s-not-reached")
-    return 0
+    return %(ret)s
 }
 shadow main { assert true }
 '''
@@ -457,7 +460,7 @@ fn main() -> int {
     }
     (println (+ "%(tag)s-sum-" (int_to_string sum)))
     (println (fib %(work)d))
-    return 0
+    return %(ret)s
 }
 shadow main { assert true }
 '''
@@ -471,7 +474,35 @@ fn main() -> int {
         set i (+ i 1)
     }
     (println "%(tag)s-big-done")
-    return 0
+    return %(ret)s
+}
+shadow main { assert true }
+'''
+    elif kind == 'ffi':
+        pre = '''
+extern fn labs(x: int) -> int
+extern fn toupper(c: int) -> int
+extern fn strlen(s: string) -> int
+''' + pre
+        body = '''
+fn main() -> int {
+    let mut i: int = 0
+    let mut acc: int = 0
+    while (< i %(n)d) {
+        let mut r: int = 0
+        let mut u: int = 0
+        let mut m: int = 0
+        unsafe {
+            set r (labs (- 0 (+ %(k)d i)))
+            set u (toupper (+ 97 (%% i 26)))
+            set m (strlen (+ "%(tag)s-" (int_to_string (* i i))))
+        }
+        set acc (+ acc (+ r (+ u m)))
+        (println (+ "%(tag)s-ffi-" (+ (int_to_string r) (+ ":" (+ (int_to_string u) (+ ":" (int_to_string m)))))))
+        set i (+ i 1)
+    }
+    (println acc)
+    return %(ret)s
 }
 shadow main { assert true }
 '''
@@ -479,7 +510,7 @@ shadow main { assert true }
         body = '''
 fn main() -> int {
     let x: int = (fib %(work)d)
-    return 0
+    return %(ret)s
 }
 shadow main { assert true }
 '''
@@ -502,11 +533,11 @@ fn main() -> int {
     (println "")
     (println (rep "%(tag)s" 1200))
     (println (fib %(work)d))
-    return 0
+    return %(ret)s
 }
 shadow main { assert true }
 '''
-    return kind, pre + body % dict(tag=tag, n=n, k=k, work=work, bign=rng.randrange(700, 1200) * scale)
+    return kind, pre + body % dict(tag=tag, n=n, k=k, work=work, bign=rng.randrange(700, 1200) * scale, ret=ret)
 
 
 class Programs:
@@ -516,8 +547,8 @@ class Programs:
         self.items = []           # dict(name, kind, nvm, blob, obs=(rc,out,err), src)
         os.makedirs(workdir, exist_ok=True)
 
-    def add(self, rng, tag, kind=None, scale=1):
-        kind, src = gen_program(rng, tag, kind, scale)
+    def add(self, rng, tag, kind=None, scale=1, ret=None):
+        kind, src = gen_program(rng, tag, kind, scale, ret)
         name = 'p%03d_%s' % (len(self.items), kind)
         nvm, diag = compile_nvm(self.b, src, self.dir, name)
         if nvm is None:
@@ -642,3 +673,46 @@ fn main() -> int {
 }
 shadow main { assert true }
 ''' % dict(tag=tag, steps=steps, work=work)
+
+
+def gen_silent_program(tag, steps, work):
+    """Prints, computes silently for `steps` units of fib(work), prints again (nothing is written to the output in between)."""
+    return '''
+fn fib(n: int) -> int {
+    if (< n 2) { return n } else { return (+ (fib (- n 1)) (fib (- n 2))) }
+}
+shadow fib { assert (== (fib 5) 5) }
+
+fn main() -> int {
+    (println "%(tag)s-start")
+    let mut i: int = 0
+    let mut acc: int = 0
+    while (< i %(steps)d) {
+        set acc (%% (+ acc (fib %(work)d)) 1000003)
+        set i (+ i 1)
+    }
+    (println (+ "%(tag)s-result-" (int_to_string acc)))
+    (println "%(tag)s-end")
+    return 0
+}
+shadow main { assert true }
+''' % dict(tag=tag, steps=steps, work=work)
+
+
+def build_daemon_wrapper(b, src_path, out_path, workdir):
+    """`nano_virt x.nano --daemon-wrapper -o out` against the freshly built client objects (NANO_VIRT_LIB layout made of symlinks).
+    Returns (path or None, diagnostics)."""
+    lib = os.path.join(workdir, 'wraplib'); nv = os.path.join(lib, 'nanovm')
+    os.makedirs(nv, exist_ok=True)
+    for o in ('vmd_client', 'vmd_protocol'):
+        dst = os.path.join(nv, o + '.o')
+        if not os.path.lexists(dst):
+            os.symlink(os.path.join(b.obj, 'nanovm__%s.o' % o), dst)
+    srcl = os.path.join(workdir, 'src')
+    if not os.path.lexists(srcl):
+        os.symlink(os.path.join(vlib.REPO, 'src'), srcl)
+    env = dict(os.environ, NANO_VIRT_LIB=lib)
+    rc, o, e = vlib.sh([b.bin('nano_virt'), src_path, '--daemon-wrapper', '-o', out_path], timeout=120, cwd=workdir, env=env)
+    if rc != 0 or not os.path.exists(out_path):
+        return None, (rc, o[-400:], e[-400:])
+    return out_path, None
